@@ -62,7 +62,8 @@ AllDescs == <<
   D(<<O1, W(11), W(22)>>, <<0, 0, 0>>, 0, "eof", <<3, 1, 2>>),    \* 15 rotated table order
   D(<<O1, O2>>, <<0, 0>>, 0, "eof", <<1, 2>>),                    \* 16 two opaque blocks
   D(<<W(11), W(22), O1>>, <<0, 0, 0>>, 0, "eof", <<1, 0, 2, 3>>), \* 17 unused slot with two live entries behind it
-  D(<<W(11), W(22)>>, <<0, 0>>, 3, "live", <<2, 1>>)              \* 18 swapped order + trailing garbage
+  D(<<W(11), W(22)>>, <<0, 0>>, 3, "live", <<2, 1>>),             \* 18 swapped order + trailing garbage
+  D(<<W(11), O1>>, <<0, 0>>, 0, "eof", <<1, 0, 0, 2>>)            \* 19 two unused slots in front of a live entry
 >>
 Fits(d) == Len(d.tord) <= N /\ \A i \in 1..Len(d.live) : TypeOfU(d.live[i].u) \in Types
 DescIds == {k \in DescSel : k \in 1..Len(AllDescs) /\ Fits(AllDescs[k])}
